@@ -1,1 +1,544 @@
-/-! Property theorems for C19 (not built yet). -/
+import Cellml.Units.RulesLemmas
+
+/-! # C19 — custom conversion rules apply the same way whatever units sit on either side.
+
+    Model (`Cellml/Units/Rules.lean`): `add_conversion_rule` as pint 0.18 executes it — a transformation keyed by the pair
+    (source DIMENSIONALITY, target DIMENSIONALITY), newest first; `convertWithRules` = pint's `Quantity.to` with the
+    enabled contexts (shortest path in the graph of keys, every hop multiplies the quantity by the rule's κ, then the
+    ordinary conversion); `convertQ` = `UnitStore.convert`, `conversionFactorR` = `get_conversion_factor`,
+    `convertVariable` = the part of `Model.convert_variable` that depends on the factor.
+
+    A factor is a pair (scale, symbols): the scale is a prime ↦ exponent map (`add` is multiplication, `sub` division,
+    `[]` is one), the symbols a symbol ↦ exponent map (`Cs/Cm` is `[("Cs",1),("Cm",-1)]`); `≃` is equality of the
+    numbers / monomials denoted. `(toRoot reg u).1` is the SI scale of the unit `u`.
+
+    Every theorem quantifies over ALL registries, ALL rule lists (any number of rules, any shadowing), ALL unit
+    expressions. The tie to cellmlmanip + pint is the correspondence check `harness/props/c19.py`. -/
+
+namespace Cellml.Props.C19
+open Units PMap Cellml.Props.C07
+
+/-! ### a rule is keyed by dimensions: the units it was registered with do not matter -/
+
+/-- `add_conversion_rule(f, t, rule)` and `add_conversion_rule(f', t', rule)` enable the same transformation whenever
+    `f, f'` have the same dimension and `t, t'` have the same dimension. -/
+theorem rule_registration_units_irrelevant (reg : Registry) (f f' t t' : Container) (body : List RFactor)
+    (hf : dimsOf reg f ≃ dimsOf reg f') (ht : dimsOf reg t ≃ dimsOf reg t') :
+    mkRule reg f t body = mkRule reg f' t' body := by
+  unfold mkRule
+  rw [dimsOf_eq_of_equiv hf, dimsOf_eq_of_equiv ht]
+
+/-- a respelling of a unit (same container up to order / splitting of exponents) has the same key -/
+theorem rule_key_respelling (reg : Registry) {u u' : Container} (h : u ≃ u') : dimsOf reg u = dimsOf reg u' :=
+  dimsOf_congr reg h
+
+/-! ### `UnitStore.convert` / `get_conversion_factor` are pint's conversion -/
+
+/-- the special case of `UnitStore.convert` for the unit `dimensionless` cannot be observed (after the repair recorded
+    in findings/C19.json): `convert` is pint's conversion with the enabled rules, for every pair of units. -/
+theorem convert_special_case_invisible (reg : Registry) (rules : List Rule) (a b : Container) :
+    convertQ reg rules a b = convertWithRules reg rules a b := convertQ_eq reg rules a b
+
+/-- `get_conversion_factor` is that multiplier, with exactly-one reported as the int `1` -/
+theorem conversionFactorR_eq (reg : Registry) (rules : List Rule) (a b : Container) :
+    conversionFactorR reg rules a b =
+      match convertWithRules reg rules a b with
+      | .ok (f, y) => .ok (if f = [] ∧ y = [] then none else some (f, y))
+      | .error e => .error e := by
+  unfold conversionFactorR
+  rw [convertQ_eq]
+  rfl
+
+/-! ### conversion through one rule -/
+
+/-- **rule_unit_independent.** If the newest rule enabled for the key (dimension of `a`, dimension of `b`) is `r`
+    (whatever units it was written for) and `r` is dimensionally a rule between these dimensions, then converting from
+    ANY unit `a` of the source dimension to ANY unit `b` of the target dimension succeeds, and the multiplier is
+    `scale(a) · |κ| · scale(unit κ) / scale(b)` with the symbols of κ: only the scales of `a` and `b` enter, not their
+    spelling, and nothing of the units the rule was registered with. -/
+theorem rule_unit_independent (reg : Registry) (rules : List Rule) (a b : Container) (r : Rule)
+    (ha : allKnown reg a = true) (hb : allKnown reg b = true) (hk : allKnown reg r.kunit = true)
+    (hne : ¬ dimsOf reg a ≃ dimsOf reg b)
+    (hr : lookupRule rules (dimsOf reg a) (dimsOf reg b) = some r)
+    (hdim : dimsOf reg r.kunit ≃ sub r.dst r.src) :
+    ∃ f y, convertWithRules reg rules a b = .ok (f, y) ∧
+      f ≃ add (sub (toRoot reg a).1 (toRoot reg b).1) (add r.kscale (toRoot reg r.kunit).1) ∧ y ≃ r.ksyms := by
+  have hne' : dimsOf reg a ≠ dimsOf reg b := fun h => hne (h ▸ Equiv.refl _)
+  obtain ⟨_, hsrc, hdst⟩ := lookupRule_some hr
+  have hpath := findPath_direct hne' hr
+  have hnil : add r.kunit ([] : Container) = r.kunit := by simp [add]
+  have hdims : dimsOf reg (add a r.kunit) ≃ dimsOf reg b := by
+    refine (dimsOf_add reg a r.kunit).trans ?_
+    intro p
+    have := hdim p
+    simp only [get_add, get_sub, hsrc, hdst] at this ⊢
+    grind
+  have hka : allKnown reg (add a r.kunit) = true := by rw [allKnown_add, ha, hk]; rfl
+  obtain ⟨f, hf⟩ := same_dims_convert reg (add a r.kunit) b hka hb hdims
+  refine ⟨norm (add f (add r.kscale [])), norm (add r.ksyms []), ?_, ?_, ?_⟩
+  · rw [convertWithRules_known ha hb, hpath]
+    simp only [rulesAlong, hr, pathUnit, pathScale, pathSyms, hnil, hf]
+  · have e := factor_with_kappa hf
+    intro p
+    have := e p
+    simp only [get_norm, get_add, get_sub, get_nil] at this ⊢
+    grind
+  · intro p; simp only [get_norm, get_add, get_nil]; grind
+
+/-- **"rescaled by exactly the ordinary factors".** Let the rule's result be known for one pair of units `(a, b)` — say
+    the units the rule was written for. For any other unit `a'` of the source dimension and `b'` of the target
+    dimension the conversion succeeds with the same symbols and
+    `factor(a' → b') = factor(a' → a) · result(a → b) · factor(b → b')`, the outer two being ordinary factors. -/
+theorem rule_rescaled_by_ordinary_factors (reg : Registry) (rules : List Rule) (a a' b b' : Container) (r : Rule)
+    (hk : allKnown reg r.kunit = true)
+    (hne : ¬ dimsOf reg a ≃ dimsOf reg b)
+    (hr : lookupRule rules (dimsOf reg a) (dimsOf reg b) = some r)
+    (hdim : dimsOf reg r.kunit ≃ sub r.dst r.src)
+    (g h f : Scale) (y : Syms)
+    (hg : factor reg a' a = .ok g) (hh : factor reg b b' = .ok h)
+    (hf : convertWithRules reg rules a b = .ok (f, y)) :
+    ∃ f' y', convertWithRules reg rules a' b' = .ok (f', y') ∧ f' ≃ add g (add f h) ∧ y' ≃ y := by
+  obtain ⟨ha', ha, hda, rfl⟩ := (factor_ok_iff reg a' a g).mp hg
+  obtain ⟨hb, hb', hdb, rfl⟩ := (factor_ok_iff reg b b' h).mp hh
+  have eda : dimsOf reg a' = dimsOf reg a := dimsOf_eq_of_equiv (beq_iff_equiv.mp hda)
+  have edb : dimsOf reg b = dimsOf reg b' := dimsOf_eq_of_equiv (beq_iff_equiv.mp hdb)
+  obtain ⟨f₀, y₀, h₀, hf₀, hy₀⟩ := rule_unit_independent reg rules a b r ha hb hk hne hr hdim
+  rw [hf] at h₀
+  simp only [Except.ok.injEq, Prod.mk.injEq] at h₀
+  obtain ⟨rfl, rfl⟩ := h₀
+  have hne' : ¬ dimsOf reg a' ≃ dimsOf reg b' := by rw [eda, ← edb]; exact hne
+  have hr' : lookupRule rules (dimsOf reg a') (dimsOf reg b') = some r := by rw [eda, ← edb]; exact hr
+  obtain ⟨f', y', h', hf', hy'⟩ := rule_unit_independent reg rules a' b' r ha' hb' hk hne' hr' hdim
+  refine ⟨f', y', h', ?_, hy'.trans hy₀.symm⟩
+  intro p
+  have := hf' p; have := hf₀ p
+  simp only [get_norm, get_add, get_sub] at *
+  grind
+
+/-- a rule whose κ does not have the dimension (target / source) is refused at conversion time
+    (pint's ordinary conversion after the transformation raises DimensionalityError) -/
+theorem rule_of_wrong_dimension_refused (reg : Registry) (rules : List Rule) (a b : Container) (r : Rule)
+    (ha : allKnown reg a = true) (hb : allKnown reg b = true) (hk : allKnown reg r.kunit = true)
+    (hne : ¬ dimsOf reg a ≃ dimsOf reg b)
+    (hr : lookupRule rules (dimsOf reg a) (dimsOf reg b) = some r)
+    (hdim : ¬ dimsOf reg (add a r.kunit) ≃ dimsOf reg b) :
+    convertWithRules reg rules a b = .error .dimensionality := by
+  have hne' : dimsOf reg a ≠ dimsOf reg b := fun h => hne (h ▸ Equiv.refl _)
+  have hpath := findPath_direct hne' hr
+  have hnil : add r.kunit ([] : Container) = r.kunit := by simp [add]
+  have hka : allKnown reg (add a r.kunit) = true := by rw [allKnown_add, ha, hk]; rfl
+  rw [convertWithRules_known ha hb, hpath]
+  simp only [rulesAlong, hr, pathUnit, hnil, mismatch_is_error' reg _ b hka hb hdim]
+
+/-! ### chains of two rules -/
+
+/-- **rule_chain.** No rule for the key (dim a, dim b); a rule `r₁` from dim a to an intermediate dimension `m` and a
+    rule `r₂` from `m` to dim b, `m` being the only such intermediate: the conversion succeeds and multiplies by both
+    κ's — `scale(a) · |κ₁| · scale(unit κ₁) · |κ₂| · scale(unit κ₂) / scale(b)`, symbols of both. -/
+theorem rule_chain (reg : Registry) (rules : List Rule) (a b : Container) (m : Dims) (r₁ r₂ : Rule)
+    (ha : allKnown reg a = true) (hb : allKnown reg b = true)
+    (hk₁ : allKnown reg r₁.kunit = true) (hk₂ : allKnown reg r₂.kunit = true)
+    (hne : ¬ dimsOf reg a ≃ dimsOf reg b)
+    (hdirect : lookupRule rules (dimsOf reg a) (dimsOf reg b) = none)
+    (h₁ : lookupRule rules (dimsOf reg a) m = some r₁) (h₂ : lookupRule rules m (dimsOf reg b) = some r₂)
+    (huniq : ∀ r ∈ rules, r.src = dimsOf reg a → (∃ r' ∈ rules, r'.src = r.dst ∧ r'.dst = dimsOf reg b) → r.dst = m)
+    (hdim₁ : dimsOf reg r₁.kunit ≃ sub r₁.dst r₁.src) (hdim₂ : dimsOf reg r₂.kunit ≃ sub r₂.dst r₂.src) :
+    ∃ f y, convertWithRules reg rules a b = .ok (f, y) ∧
+      f ≃ add (sub (toRoot reg a).1 (toRoot reg b).1)
+            (add (add r₁.kscale (toRoot reg r₁.kunit).1) (add r₂.kscale (toRoot reg r₂.kunit).1)) ∧
+      y ≃ add r₁.ksyms r₂.ksyms := by
+  have hne' : dimsOf reg a ≠ dimsOf reg b := fun h => hne (h ▸ Equiv.refl _)
+  obtain ⟨_, hsrc₁, hdst₁⟩ := lookupRule_some h₁
+  obtain ⟨_, hsrc₂, hdst₂⟩ := lookupRule_some h₂
+  have hpath := findPath_chain hne' hdirect h₁ h₂ huniq
+  have hnil : add r₂.kunit ([] : Container) = r₂.kunit := by simp [add]
+  have hdims : dimsOf reg (add a (add r₁.kunit r₂.kunit)) ≃ dimsOf reg b := by
+    refine (dimsOf_add reg a _).trans ?_
+    intro p
+    have e := dimsOf_add reg r₁.kunit r₂.kunit p
+    have := hdim₁ p; have := hdim₂ p
+    simp only [get_add, get_sub, hsrc₁, hdst₁, hsrc₂, hdst₂] at *
+    grind
+  have hka : allKnown reg (add a (add r₁.kunit r₂.kunit)) = true := by
+    rw [allKnown_add, allKnown_add, ha, hk₁, hk₂]; rfl
+  obtain ⟨f, hf⟩ := same_dims_convert reg _ b hka hb hdims
+  refine ⟨norm (add f (add r₁.kscale (add r₂.kscale []))), norm (add r₁.ksyms (add r₂.ksyms [])), ?_, ?_, ?_⟩
+  · rw [convertWithRules_known ha hb, hpath]
+    simp only [rulesAlong, h₁, h₂, pathUnit, pathScale, pathSyms, hnil, hf]
+  · have e := factor_with_kappa hf
+    have m₁ := (toRoot_add reg r₁.kunit r₂.kunit).1
+    intro p
+    have := e p; have := m₁ p
+    simp only [get_norm, get_add, get_sub, get_nil] at *
+    grind
+  · intro p; simp only [get_norm, get_add, get_nil]; grind
+
+/-- the chain is the composition of its two rules: for ANY unit `c` of the intermediate dimension,
+    `result(a → b) = result(a → c) · result(c → b)` (scales multiply, symbols multiply). -/
+theorem rule_chain_composes (reg : Registry) (rules : List Rule) (a b c : Container) (r₁ r₂ : Rule)
+    (ha : allKnown reg a = true) (hb : allKnown reg b = true) (hc : allKnown reg c = true)
+    (hk₁ : allKnown reg r₁.kunit = true) (hk₂ : allKnown reg r₂.kunit = true)
+    (hne : ¬ dimsOf reg a ≃ dimsOf reg b) (hac : ¬ dimsOf reg a ≃ dimsOf reg c) (hcb : ¬ dimsOf reg c ≃ dimsOf reg b)
+    (hdirect : lookupRule rules (dimsOf reg a) (dimsOf reg b) = none)
+    (h₁ : lookupRule rules (dimsOf reg a) (dimsOf reg c) = some r₁)
+    (h₂ : lookupRule rules (dimsOf reg c) (dimsOf reg b) = some r₂)
+    (huniq : ∀ r ∈ rules, r.src = dimsOf reg a → (∃ r' ∈ rules, r'.src = r.dst ∧ r'.dst = dimsOf reg b) →
+      r.dst = dimsOf reg c)
+    (hdim₁ : dimsOf reg r₁.kunit ≃ sub r₁.dst r₁.src) (hdim₂ : dimsOf reg r₂.kunit ≃ sub r₂.dst r₂.src) :
+    ∃ f y f₁ y₁ f₂ y₂, convertWithRules reg rules a b = .ok (f, y) ∧
+      convertWithRules reg rules a c = .ok (f₁, y₁) ∧ convertWithRules reg rules c b = .ok (f₂, y₂) ∧
+      f ≃ add f₁ f₂ ∧ y ≃ add y₁ y₂ := by
+  obtain ⟨f, y, h, hf, hy⟩ := rule_chain reg rules a b _ r₁ r₂ ha hb hk₁ hk₂ hne hdirect h₁ h₂ huniq hdim₁ hdim₂
+  obtain ⟨f₁, y₁, h1, hf₁, hy₁⟩ := rule_unit_independent reg rules a c r₁ ha hc hk₁ hac h₁ hdim₁
+  obtain ⟨f₂, y₂, h2, hf₂, hy₂⟩ := rule_unit_independent reg rules c b r₂ hc hb hk₂ hcb h₂ hdim₂
+  refine ⟨f, y, f₁, y₁, f₂, y₂, h, h1, h2, ?_, ?_⟩
+  · intro p
+    have := hf p; have := hf₁ p; have := hf₂ p
+    simp only [get_add, get_sub] at *
+    grind
+  · intro p
+    have := hy p; have := hy₁ p; have := hy₂ p
+    simp only [get_add] at *
+    grind
+
+/-! ### conversions that do not need a rule are unaffected -/
+
+/-- **rule_noninterference.** Between units of the same dimension the result is the ordinary factor (no symbols),
+    whatever rules are enabled — including rules from or to that very dimension, or from it to itself. -/
+theorem rule_noninterference (reg : Registry) (rules : List Rule) (a b : Container)
+    (hd : dimsOf reg a ≃ dimsOf reg b) :
+    convertWithRules reg rules a b =
+      match factor reg a b with
+      | .ok f => .ok (f, [])
+      | .error e => .error e :=
+  convertWithRules_same_dims reg rules a b (dimsOf_eq_of_equiv hd)
+
+/-- hence registering rules changes no same-dimension answer of `get_conversion_factor` … -/
+theorem rule_noninterference_api (reg : Registry) (rules rules' : List Rule) (a b : Container)
+    (hd : dimsOf reg a ≃ dimsOf reg b) :
+    conversionFactorR reg rules a b = conversionFactorR reg rules' a b := by
+  rw [conversionFactorR_eq, conversionFactorR_eq, rule_noninterference reg rules a b hd,
+    rule_noninterference reg rules' a b hd]
+
+/-- … and that answer is the one of C07's `get_conversion_factor` without rules -/
+theorem rule_noninterference_is_plain_factor (reg : Registry) (rules : List Rule) (a b : Container)
+    (hd : dimsOf reg a ≃ dimsOf reg b) :
+    conversionFactorR reg rules a b =
+      match conversionFactor reg a b with
+      | .ok none => .ok none
+      | .ok (some f) => .ok (some (f, []))
+      | .error e => .error e := by
+  rw [conversionFactorR_eq, rule_noninterference reg rules a b hd]
+  unfold conversionFactor
+  cases hf : factor reg a b with
+  | error e => rfl
+  | ok f => by_cases h : f = [] <;> simp [h]
+
+/-- with no rule enabled every conversion is the ordinary one -/
+theorem no_rules_plain (reg : Registry) (a b : Container) :
+    convertWithRules reg [] a b =
+      match factor reg a b with
+      | .ok f => .ok (f, [])
+      | .error e => .error e := by
+  by_cases hd : dimsOf reg a = dimsOf reg b
+  · exact convertWithRules_same_dims reg [] a b hd
+  · cases hk : (allKnown reg a && allKnown reg b) with
+    | false => rw [convertWithRules_unknown hk, factor_unknown hk]
+    | true =>
+        simp only [Bool.and_eq_true] at hk
+        rw [convertWithRules_known hk.1 hk.2]
+        have : findPath [] (dimsOf reg a) (dimsOf reg b) = none := by
+          simp [findPath, walks, hd, search]
+        rw [this]
+        rfl
+
+/-! ### dimensions that no rule path connects still fail -/
+
+/-- **rule_unreachable.** If no sequence of enabled rules leads from the dimension of `a` to the dimension of `b`, the
+    conversion is a DimensionalityError — before and after any registration (`rules` is arbitrary). -/
+theorem rule_unreachable (reg : Registry) (rules : List Rule) (a b : Container)
+    (ha : allKnown reg a = true) (hb : allKnown reg b = true)
+    (hun : ¬ Reach rules (dimsOf reg a) (dimsOf reg b)) :
+    convertWithRules reg rules a b = .error .dimensionality := by
+  have hne : ¬ dimsOf reg a ≃ dimsOf reg b := by
+    intro h
+    apply hun
+    rw [dimsOf_eq_of_equiv h]
+    exact Reach.refl _
+  rw [convertWithRules_known ha hb, findPath_none_of_not_reach hun, mismatch_is_error' reg a b ha hb hne]
+
+theorem rule_unreachable_api (reg : Registry) (rules : List Rule) (a b : Container)
+    (ha : allKnown reg a = true) (hb : allKnown reg b = true)
+    (hun : ¬ Reach rules (dimsOf reg a) (dimsOf reg b)) :
+    conversionFactorR reg rules a b = .error .dimensionality ∧ convertQ reg rules a b = .error .dimensionality := by
+  rw [conversionFactorR_eq, convertQ_eq, rule_unreachable reg rules a b ha hb hun]
+  exact ⟨rfl, rfl⟩
+
+/-- conversely a conversion between different dimensions only ever succeeds along a rule path: rules are directional,
+    a rule D₁ → D₂ alone never converts D₂ → D₁ -/
+theorem ok_across_dimensions_needs_path (reg : Registry) (rules : List Rule) (a b : Container) (f : Scale) (y : Syms)
+    (hne : ¬ dimsOf reg a ≃ dimsOf reg b) (h : convertWithRules reg rules a b = .ok (f, y)) :
+    Reach rules (dimsOf reg a) (dimsOf reg b) := by
+  cases hk : (allKnown reg a && allKnown reg b) with
+  | false => rw [convertWithRules_unknown hk] at h; cases h
+  | true =>
+      simp only [Bool.and_eq_true] at hk
+      rw [convertWithRules_known hk.1 hk.2] at h
+      cases hp : findPath rules (dimsOf reg a) (dimsOf reg b) with
+      | some p => exact reach_of_findPath hp
+      | none =>
+          rw [hp, mismatch_is_error' reg a b hk.1 hk.2 hne] at h
+          cases h
+
+/-- a single rule D₁ → D₂ (D₁ ≠ D₂) does not make D₂ → D₁ convertible -/
+theorem single_rule_is_directional (reg : Registry) (r : Rule) (a b : Container)
+    (ha : allKnown reg a = true) (hb : allKnown reg b = true)
+    (hsrc : r.src = dimsOf reg a) (hdst : r.dst = dimsOf reg b) (hne : ¬ dimsOf reg a ≃ dimsOf reg b) :
+    convertWithRules reg [r] b a = .error .dimensionality := by
+  apply rule_unreachable reg [r] b a hb ha
+  intro hreach
+  have hne' : dimsOf reg b ≠ dimsOf reg a := fun h => hne (h ▸ Equiv.refl _)
+  -- any path from dim b must start with a rule whose source is dim b; the only rule starts at dim a
+  rcases reach_start hreach with h | ⟨r', hr', hs'⟩
+  · exact hne' h
+  · simp only [List.mem_singleton] at hr'
+    subst hr'
+    exact hne' (hs'.symm.trans hsrc)
+
+/-! ### the path search: complete, shortest; conversion along any path -/
+
+/-- the bounded search finds a path exactly when the target dimension can be reached through enabled rules -/
+theorem path_search_complete (rules : List Rule) (s d : Dims) :
+    (∃ p, findPath rules s d = some p) ↔ Reach rules s d :=
+  ⟨fun ⟨_, hp⟩ => reach_of_findPath hp, findPath_complete⟩
+
+/-- and the path it returns has the least number of hops among all walks of the graph -/
+theorem path_search_shortest (rules : List Rule) (s d : Dims) (p : List Dims) (h : findPath rules s d = some p)
+    (k : Nat) (q : List Dims) (hq : q ∈ walks rules k s d) : p.length ≤ k ∧ p ∈ walks rules p.length s d := by
+  refine ⟨findPath_shortest h k q hq, ?_⟩
+  obtain ⟨n, hn⟩ := mem_walks_of_search h
+  rw [length_of_mem_walks hn]; exact hn
+
+/-- **any number of hops.** Along the path found, the conversion multiplies by every κ on the way and then by the
+    ordinary factor: `scale(a) · ∏ |κᵢ| · scale(unit κᵢ) / scale(b)`, symbols of all κᵢ; it fails only if the rules do
+    not lead to the target dimension (or use unknown units). -/
+theorem rule_path (reg : Registry) (rules : List Rule) (a b : Container) (p : List Dims)
+    (ha : allKnown reg a = true) (hb : allKnown reg b = true)
+    (hp : findPath rules (dimsOf reg a) (dimsOf reg b) = some p) (f : Scale) (y : Syms)
+    (h : convertWithRules reg rules a b = .ok (f, y)) :
+    f ≃ add (sub (toRoot reg a).1 (toRoot reg b).1)
+          (add (pathScale (rulesAlong rules (dimsOf reg a) p))
+               (toRoot reg (pathUnit (rulesAlong rules (dimsOf reg a) p))).1) ∧
+    y ≃ pathSyms (rulesAlong rules (dimsOf reg a) p) := by
+  rw [convertWithRules_known ha hb, hp] at h
+  simp only at h
+  cases hf : factor reg (add a (pathUnit (rulesAlong rules (dimsOf reg a) p))) b with
+  | error e => rw [hf] at h; cases h
+  | ok g =>
+      rw [hf] at h
+      simp only [Except.ok.injEq, Prod.mk.injEq] at h
+      obtain ⟨rfl, rfl⟩ := h
+      have e := factor_with_kappa hf
+      refine ⟨?_, norm_equiv _⟩
+      intro q
+      have := e q
+      simp only [get_norm, get_add, get_sub] at this ⊢
+      grind
+
+/-- the exact converse of `rule_unreachable`: a DimensionalityError between reachable dimensions can only come from a
+    rule that does not produce the target dimension -/
+theorem error_between_reachable_dimensions (reg : Registry) (rules : List Rule) (a b : Container)
+    (ha : allKnown reg a = true) (hb : allKnown reg b = true)
+    (hreach : Reach rules (dimsOf reg a) (dimsOf reg b)) (e : UErr)
+    (h : convertWithRules reg rules a b = .error e) :
+    ∃ p, findPath rules (dimsOf reg a) (dimsOf reg b) = some p ∧
+      factor reg (add a (pathUnit (rulesAlong rules (dimsOf reg a) p))) b = .error e := by
+  obtain ⟨p, hp⟩ := findPath_complete hreach
+  refine ⟨p, hp, ?_⟩
+  rw [convertWithRules_known ha hb, hp] at h
+  simp only at h
+  cases hf : factor reg (add a (pathUnit (rulesAlong rules (dimsOf reg a) p))) b with
+  | error e' => rw [hf] at h; simp only [Except.error.injEq] at h; rw [h]
+  | ok g => rw [hf] at h; cases h
+
+/-! ### `convert_variable` -/
+
+/-- `convert_variable` returns the original variable exactly when `get_conversion_factor` returns `1` -/
+theorem cv_same_iff (reg : Registry) (rules : List Rule) (a b : Container) (dir : Dir) (kind : VarKind)
+    (hasInit : Bool) (n : Nat) :
+    convertVariable reg rules a b dir kind hasInit n = .same ↔ conversionFactorR reg rules a b = .ok none := by
+  unfold convertVariable
+  cases h : conversionFactorR reg rules a b with
+  | error e => simp
+  | ok o =>
+      cases o with
+      | none => simp
+      | some fy =>
+          obtain ⟨f, y⟩ := fy
+          simp only
+          split <;> simp
+
+/-- it raises a unit error exactly when `get_conversion_factor` does (same error) -/
+theorem cv_unit_error_iff (reg : Registry) (rules : List Rule) (a b : Container) (dir : Dir) (kind : VarKind)
+    (hasInit : Bool) (n : Nat) (e : UErr) :
+    convertVariable reg rules a b dir kind hasInit n = .error (.units e) ↔
+      conversionFactorR reg rules a b = .error e := by
+  unfold convertVariable
+  cases h : conversionFactorR reg rules a b with
+  | error e' => simp
+  | ok o =>
+      cases o with
+      | none => simp
+      | some fy =>
+          obtain ⟨f, y⟩ := fy
+          simp only
+          split <;> simp
+
+/-- when it converts, the factor placed in EVERY added equation is the one `get_conversion_factor` returned — the
+    rule's result for the units actually used —, as `· cf` or `/ cf`, and the initial value is scaled by it -/
+theorem cv_uses_rule_factor (reg : Registry) (rules : List Rule) (a b : Container) (dir : Dir) (kind : VarKind)
+    (hasInit : Bool) (n : Nat) (fy : Scale × Syms) (initScaled : Bool) (eqs : List EqForm)
+    (h : convertVariable reg rules a b dir kind hasInit n = .converted fy initScaled eqs) :
+    conversionFactorR reg rules a b = .ok (some fy) ∧ eqs = cvEquations dir kind n ∧
+      (∀ e ∈ eqs, e.exponent = 1 ∨ e.exponent = -1) ∧ eqs ≠ [] ∧
+      (initScaled = true ↔ (dir = .input ∧ hasInit = true)) := by
+  unfold convertVariable at h
+  cases hc : conversionFactorR reg rules a b with
+  | error e => rw [hc] at h; cases h
+  | ok o =>
+      rw [hc] at h
+      cases o with
+      | none => cases h
+      | some fy' =>
+          obtain ⟨f, y⟩ := fy'
+          simp only at h
+          split at h
+          · cases h
+          · simp only [CVOutcome.converted.injEq] at h
+            obtain ⟨rfl, rfl, rfl⟩ := h
+            refine ⟨rfl, rfl, ?_, ?_, ?_⟩
+            · intro e _; cases e <;> simp [EqForm.exponent]
+            · cases dir <;> simp [cvEquations]
+            · simp
+
+/-- **convert_variable alike (partial).** Whenever `get_conversion_factor` gives a factor different from one,
+    `convert_variable` performs the conversion with it — provided the factor is numeric, or the direction is OUTPUT,
+    or the variable has no initial value. -/
+theorem cv_alike_partial (reg : Registry) (rules : List Rule) (a b : Container) (dir : Dir) (kind : VarKind)
+    (hasInit : Bool) (n : Nat) (f : Scale) (y : Syms)
+    (hcf : conversionFactorR reg rules a b = .ok (some (f, y)))
+    (hex : y = [] ∨ dir = .output ∨ hasInit = false) :
+    convertVariable reg rules a b dir kind hasInit n =
+      .converted (f, y) (decide (dir = .input) && hasInit) (cvEquations dir kind n) := by
+  unfold convertVariable
+  rw [hcf]
+  simp only
+  split
+  · rename_i hc
+    rcases hex with h | h | h
+    · exact absurd h hc.2.2
+    · rw [h] at hc; exact absurd hc.1 (by decide)
+    · rw [h] at hc; exact absurd hc.2.1 (by decide)
+  · rfl
+
+/-- the excluded configuration really fails (known finding `cv-symbolic-factor-initial-value`): symbolic factor,
+    INPUT, initial value ⇒ TypeError, although `get_conversion_factor` succeeded -/
+theorem cv_symbolic_input_initial_value_refused (reg : Registry) (rules : List Rule) (a b : Container)
+    (kind : VarKind) (n : Nat) (f : Scale) (y : Syms)
+    (hcf : conversionFactorR reg rules a b = .ok (some (f, y))) (hy : y ≠ []) :
+    convertVariable reg rules a b .input kind true n = .error .typeError := by
+  unfold convertVariable
+  rw [hcf]
+  simp [hy]
+
+/-! ### non-vacuity: the chain of the docstring of `add_conversion_rule`
+    (uA → uA_per_cm2 by `rhs * Cs / Cm`, uA_per_cm2 → A_per_F by `rhs / Cs`, Cm = 12 pF, Cs = 1.1 uF_per_cm2) -/
+
+def docReg : Registry :=
+  [("A_per_F", .derived [] [("ampere", 1), ("farad", -1)]),
+   ("uF_per_cm2", .derived [] [("uF", 1), ("cm2", -1)]),
+   ("uA_per_cm2", .derived [] [("uA", 1), ("cm2", -1)]),
+   ("cm2", .derived (pow10 (-4)) [("meter", 2)]),
+   ("pF", .derived (pow10 (-12)) [("farad", 1)]),
+   ("uF", .derived (pow10 (-6)) [("farad", 1)]),
+   ("pA", .derived (pow10 (-12)) [("ampere", 1)]),
+   ("uA", .derived (pow10 (-6)) [("ampere", 1)])] ++ builtinRegistry
+
+def s1_1 : Scale := [(2, -1), (5, -1), (11, 1)]   -- 1.1
+def s12 : Scale := [(2, 2), (3, 1)]               -- 12
+
+def docRule₁ : Rule :=
+  mkRule docReg [("uA", 1)] [("uA_per_cm2", 1)]
+    [⟨false, .num s1_1, [("uF_per_cm2", 1)]⟩, ⟨true, .num s12, [("pF", 1)]⟩]
+def docRule₂ : Rule :=
+  mkRule docReg [("uA_per_cm2", 1)] [("A_per_F", 1)] [⟨true, .num s1_1, [("uF_per_cm2", 1)]⟩]
+def docRules : List Rule := [docRule₂, docRule₁]
+
+def symRule₁ : Rule :=
+  mkRule docReg [("uA", 1)] [("uA_per_cm2", 1)]
+    [⟨false, .sym "Cs", [("uF_per_cm2", 1)]⟩, ⟨true, .sym "Cm", [("pF", 1)]⟩]
+def symRule₂ : Rule :=
+  mkRule docReg [("uA_per_cm2", 1)] [("A_per_F", 1)] [⟨true, .sym "Cs", [("uF_per_cm2", 1)]⟩]
+
+/-- 1 pA ↦ 1/12 A/F through both rules; 1 uA/cm² ↦ 1/1.1 A/F through the second (the two printed lines of the
+    docstring: 0.0833…, 0.909…) -/
+example : convertWithRules docReg docRules [("pA", 1)] [("A_per_F", 1)] = .ok ([(2, -2), (3, -1)], []) := by
+  decide +kernel
+example : convertWithRules docReg docRules [("uA_per_cm2", 1)] [("A_per_F", 1)] = .ok ([(2, 1), (5, 1), (11, -1)], []) := by
+  decide +kernel
+/-- through the first rule only, from pA (the rule was written for uA): 1e-6 · 1.1/12 · 1e6 … -/
+example : convertWithRules docReg docRules [("pA", 1)] [("uA_per_cm2", 1)] =
+    .ok ([(2, -3), (3, -1), (5, -1), (11, 1)], []) := by decide +kernel
+/-- symbolic capacitances: the symbols cancel along the chain as in sympy (Cs/Cm · 1/Cs = 1/Cm) -/
+example : convertWithRules docReg [symRule₂, symRule₁] [("pA", 1)] [("A_per_F", 1)] = .ok ([], [("Cm", -1)]) := by
+  decide +kernel
+example : convertWithRules docReg [symRule₂, symRule₁] [("pA", 1)] [("uA_per_cm2", 1)] =
+    .ok ([], [("Cm", -1), ("Cs", 1)]) := by decide +kernel
+/-- the hypotheses of `rule_unit_independent` / `rule_chain` are met by this instance -/
+example : lookupRule docRules (dimsOf docReg [("pA", 1)]) (dimsOf docReg [("uA_per_cm2", 1)]) = some docRule₁ ∧
+    allKnown docReg docRule₁.kunit = true ∧
+    beq (dimsOf docReg docRule₁.kunit) (sub docRule₁.dst docRule₁.src) = true ∧
+    beq (dimsOf docReg [("pA", 1)]) (dimsOf docReg [("uA_per_cm2", 1)]) = false := by decide +kernel
+example : lookupRule docRules (dimsOf docReg [("pA", 1)]) (dimsOf docReg [("A_per_F", 1)]) = none ∧
+    lookupRule docRules (dimsOf docReg [("pA", 1)]) (dimsOf docReg [("uA_per_cm2", 1)]) = some docRule₁ ∧
+    lookupRule docRules (dimsOf docReg [("uA_per_cm2", 1)]) (dimsOf docReg [("A_per_F", 1)]) = some docRule₂ ∧
+    (∀ r ∈ docRules, r.src = dimsOf docReg [("pA", 1)] →
+      (∃ r' ∈ docRules, r'.src = r.dst ∧ r'.dst = dimsOf docReg [("A_per_F", 1)]) →
+      r.dst = dimsOf docReg [("uA_per_cm2", 1)]) := by decide +kernel
+/-- same dimension: the ordinary factor, rules or not; reverse direction and unrelated dimensions: still an error -/
+example : convertWithRules docReg docRules [("pA", 1)] [("uA", 1)] = .ok ([(2, -6), (5, -6)], []) ∧
+    factor docReg [("pA", 1)] [("uA", 1)] = .ok [(2, -6), (5, -6)] := by decide +kernel
+example : convertWithRules docReg docRules [("A_per_F", 1)] [("pA", 1)] = .error .dimensionality ∧
+    convertWithRules docReg docRules [("pA", 1)] [("volt", 1)] = .error .dimensionality := by decide +kernel
+/-- convert_variable with the symbolic chain: OUTPUT converts, INPUT with an initial value is refused -/
+example : convertVariable docReg [symRule₂, symRule₁] [("pA", 1)] [("A_per_F", 1)] .output .state true 1 =
+      .converted ([], [("Cm", -1)]) false [.newFromOrig] ∧
+    convertVariable docReg [symRule₂, symRule₁] [("pA", 1)] [("A_per_F", 1)] .input .state true 1 =
+      .error .typeError ∧
+    convertVariable docReg docRules [("pA", 1)] [("A_per_F", 1)] .input .state true 1 =
+      .converted ([(2, -2), (3, -1)], []) true [.origFromNew, .odeOfNew] := by decide +kernel
+
+/-! ### the defect repaired by the `fix:` commit, on the model of the code as it was -/
+
+def voltRule : Rule := mkRule builtinRegistry [] [("volt", 1)] [⟨false, .num [(5, 1)], [("volt", 1)]⟩]
+def perVoltRule : Rule := mkRule builtinRegistry [("volt", 1)] [] [⟨true, .num [(5, 1)], [("volt", 1)]⟩]
+
+/-- before the repair: with a rule dimensionless → volt, `convert(x dimensionless, volt)` raised DimensionalityError
+    although pint converts it (×5): the full `convert_special_case_invisible` was false of the code as it was -/
+theorem convert_before_fix_source_counterexample :
+    convertQ_before builtinRegistry [voltRule] [] [("volt", 1)] = .error .dimensionality ∧
+    convertWithRules builtinRegistry [voltRule] [] [("volt", 1)] = .ok ([(5, 1)], []) := by
+  decide +kernel
+
+/-- … and with only a rule volt → dimensionless it succeeded, through the inverse of a rule that was registered for
+    the other direction (`single_rule_is_directional` was false of the code as it was) -/
+theorem convert_before_fix_target_counterexample :
+    convertQ_before builtinRegistry [perVoltRule] [] [("volt", 1)] = .ok ([(5, 1)], []) ∧
+    convertWithRules builtinRegistry [perVoltRule] [] [("volt", 1)] = .error .dimensionality := by
+  decide +kernel
+
+/-- after the repair both agree with pint on these inputs (instances of `convert_special_case_invisible`) -/
+example : convertQ builtinRegistry [voltRule] [] [("volt", 1)] = .ok ([(5, 1)], []) ∧
+    convertQ builtinRegistry [perVoltRule] [] [("volt", 1)] = .error .dimensionality := by decide +kernel
+
+end Cellml.Props.C19
